@@ -9,8 +9,6 @@ outside the rewritten ones shares an object with them (`NoAlias`).
 namespace Holpy.C03
 open Holpy
 
-def Ext (h h' : Heap) : Prop := ∀ x o, h x = some o → h' x = some o
-
 theorem Ext.refl (h : Heap) : Ext h h := fun _ _ e => e
 theorem Ext.trans {h1 h2 h3 : Heap} (a : Ext h1 h2) (b : Ext h2 h3) : Ext h1 h3 :=
   fun x o e => b x o (a x o e)
@@ -209,6 +207,7 @@ theorem MStep_inv {s s' : Heap × Memo} (hi : MemoInv s.1 s.2) (st : MStep s s')
         cases hm
         exact ⟨t, r, rfl⟩
       · exact hi x v hm
+  | grow hx _ => exact hi.ext hx
   | @inplace h m σ R hc hn =>
     intro x v hm
     simp only [inplaceMemo, if_true] at hm
@@ -223,6 +222,32 @@ theorem MSteps_inv {s s' : Heap × Memo} (hi : MemoInv s.1 s.2) (st : MSteps s s
   induction st with
   | nil => exact hi
   | cons a _ ih => exact ih (MStep_inv hi a)
+
+
+theorem inplace_idinv (σ : Ty.TyInst) (R : List Addr) {h : Heap} (hi : IdInv h) :
+    IdInv (inplaceHeap σ R h) := by
+  intro a o e
+  unfold inplaceHeap at e
+  split at e
+  · cases ha : h a with
+    | none => rw [ha] at e; cases e
+    | some o' => rw [ha] at e; cases e; exact hi a o' ha
+  · exact hi a o e
+
+theorem MStep_idinv {s s' : Heap × Memo} (hi : IdInv s.1) (st : MStep s s') : IdInv s'.1 := by
+  cases st with
+  | alloc e => exact alloc_inv hi e
+  | wrap e => exact wrap_inv hi e
+  | copy e => exact copyRec_inv _ _ _ _ _ hi e
+  | free _ => exact hi.del _
+  | hash _ => exact hi
+  | inplace _ _ => exact inplace_idinv _ _ hi
+  | grow _ hg => exact hg hi
+
+theorem MSteps_idinv {s s' : Heap × Memo} (hi : IdInv s.1) (st : MSteps s s') : IdInv s'.1 := by
+  induction st with
+  | nil => exact hi
+  | cons a _ ih => exact ih (MStep_idinv hi a)
 
 theorem MemoInv.empty : MemoInv Heap.empty Memo.empty := by
   intro a v hm
